@@ -103,9 +103,9 @@ def check(ctx):
                 if f"self.{nm}(" in txt:
                     seq.append((nm, st))
         names = [s for s, _ in seq]
-        ok = names == [first, second]
+        ok = names == [first, second] and len(ws[0].body) == 2
         ctx.ob("C12.S2", f"{f.short}/order", ok, loc(f), f"{first} then {second}" if ok else
-               f"order is {names}: the remote copy happens before the local file is complete / the local file is read before it was fetched")
+               f"body is {[norm(s_)[:40] for s_ in ws[0].body]} (operations {names}): the remote copy happens before the local file is complete, the local file is read before it was fetched, or an extra check changes which values round-trip")
         for nm, st in seq:
             c = [x for x in ast.walk(st) if isinstance(x, ast.Call) and isinstance(x.func, ast.Attribute) and x.func.attr == nm][0]
             ok = len(c.args) == 1 and is_name(c.args[0], lp)
